@@ -1,9 +1,13 @@
 import RasnModel.Link.ComponentsOf
+import RasnModel.Link.Params
+import RasnModel.Proofs.Params
 /-
   C09 — notations defined by expansion compile like their hand-expanded form (COMPONENTS OF part).
-  Value references / named numbers in constraints, parameterized types, selection types and class
-  field types are substitutions with no order or position structure; they are decided by the oracle
-  (sugared module vs hand-expanded module), see DESIGN.md.
+  Value parameters of parameterized types: the linker's scope extension (Link/Params) against X.683's
+  simultaneous substitution, for every module, template and argument list — names of formal parameters
+  that coincide with names of constants included (second part of this file).
+  Value references / named numbers in constraints, type parameters, selection types and class field types
+  are decided by the oracle (sugared module vs hand-expanded module), see DESIGN.md.
 -/
 namespace Props.C09
 open Link
@@ -197,5 +201,122 @@ theorem C09_cycle_terminates :
 
 /-- non-vacuity of the domain: a chain of three through names that sort both ways -/
 example : DomEnv [("Zeta", ⟨[.comp "z", .of "Alpha"], none⟩), ("Alpha", ⟨[.comp "a"], some [.comp "x"]⟩), ("Mid", ⟨[.comp "m", .of "Zeta"], none⟩)] = true := by decide
+
+/-! ### value parameters of parameterized types (model `Link/Params`) -/
+section Params
+open Link.Params Proofs.Params
+
+/-- every definition of the module resolves to a number within |module| steps (no dangling names, no cycles) -/
+def ClosedModule (m : Scope) : Prop := ∀ x v, lookup m x = some v → ∃ k, follow m m.length v = .lit k
+/-- every argument resolves to a number in the module's scope -/
+def ClosedArgs (m : Scope) (args : List Val) : Prop := ∀ a ∈ args, ∃ k, follow m (fuelOf m) a = .lit k
+/-- every reference in the body is a formal parameter or a definition of the module -/
+def BoundBody (m : Scope) (t : Template) : Prop := ∀ x, Val.ref x ∈ t.body → x ∈ t.formals ∨ (lookup m x).isSome = true
+
+/-- what one place of the body becomes in an instance = what it becomes in the hand-expanded definition -/
+theorem place_eq (m : Scope) (t : Template) (args : List Val)
+    (hm : ClosedModule m) (ha : ClosedArgs m args) (hl : t.formals.length = args.length) (v : Val)
+    (hv : ∀ x, v = .ref x → x ∈ t.formals ∨ (lookup m x).isSome = true) :
+    follow (instanceScope m t args) (fuelOf (instanceScope m t args)) v =
+      follow m (fuelOf m) (substVal t args v) := by
+  cases v with
+  | lit n => simp [substVal]
+  | ref x =>
+    simp only [fuelOf, follow, substVal]
+    by_cases hx : x ∈ t.formals
+    · obtain ⟨a, hain, hza⟩ := lookup_zip_of_mem t.formals args x hx hl
+      obtain ⟨k, hk⟩ := ha a hain
+      have h1 : lookup (instanceScope m t args) x = some (.lit k) := by
+        unfold instanceScope
+        rw [lookup_append, lookup_zip_map, hza]
+        simp [hk]
+      rw [h1, hza]
+      simp only [follow_lit, Option.getD_some]
+      exact hk.symm
+    · have hz : lookup (t.formals.zip args) x = none := lookup_zip_of_not_mem _ _ _ hx
+      rcases hv x rfl with h | h
+      · exact absurd h hx
+      · obtain ⟨v', hv'⟩ := Option.isSome_iff_exists.mp h
+        obtain ⟨k, hk⟩ := hm x v' hv'
+        have hk1 : follow m (m.length + 1) v' = .lit k := follow_mono m _ _ _ hk
+        have h1 : lookup (instanceScope m t args) x = some (.lit k) := by
+          unfold instanceScope
+          rw [lookup_append, lookup_zip_of_not_mem _ _ _ hx, lookup_hide_of_not_mem _ _ _ hx, lookup_resolveChains, hv']
+          simp [fuelOf, hk1]
+        rw [h1, hz]
+        simp only [follow_lit, Option.getD_none, follow, hv']
+        exact hk.symm
+
+/-- C09_value_parameters: for EVERY module whose constants resolve, EVERY template and EVERY list of
+    resolvable arguments — whatever the names of the formal parameters, names of constants of the module
+    included — the bounds of an instance as the linker computes them (scope extension) are the bounds of
+    the hand-expanded definition (simultaneous substitution, then an ordinary definition of the module). -/
+theorem C09_value_parameters (m : Scope) (t : Template) (args : List Val)
+    (hm : ClosedModule m) (ha : ClosedArgs m args) (hb : BoundBody m t) (hl : t.formals.length = args.length) :
+    instantiate m t args = expanded m t args := by
+  unfold instantiate expanded substitute
+  rw [List.map_map]
+  apply List.map_congr_left
+  intro v hv
+  simp only [Function.comp]
+  exact place_eq m t args hm ha hl v (fun x e => hb x (e ▸ hv))
+
+/-- C09_value_parameters_template_first: the same when the template itself was linked before it is
+    instantiated (it is, whenever its name is popped earlier from the linker's sorted key list): linking
+    the template leaves its formal parameters alone, also those named like a constant. -/
+theorem C09_value_parameters_template_first (m : Scope) (t : Template) (args : List Val)
+    (hm : ClosedModule m) (ha : ClosedArgs m args) (hb : BoundBody m t) (hl : t.formals.length = args.length) :
+    instantiate m (linkTemplate m t) args = expanded m t args := by
+  rw [← C09_value_parameters m t args hm ha hb hl]
+  unfold instantiate linkTemplate
+  simp only [List.map_map]
+  have hs : instanceScope m { formals := t.formals, body := t.body.map (follow (hide t.formals (resolveChains m)) (fuelOf m)) } args
+      = instanceScope m t args := rfl
+  rw [hs]
+  apply List.map_congr_left
+  intro v hv
+  simp only [Function.comp]
+  cases v with
+  | lit n => simp
+  | ref x =>
+    by_cases hx : x ∈ t.formals
+    · have : follow (hide t.formals (resolveChains m)) (fuelOf m) (.ref x) = .ref x := by
+        simp [fuelOf, follow, lookup_hide_of_mem _ _ _ hx]
+      rw [this]
+    · rcases hb x hv with h | h
+      · exact absurd h hx
+      · obtain ⟨v', hv'⟩ := Option.isSome_iff_exists.mp h
+        obtain ⟨k, hk⟩ := hm x v' hv'
+        have hk1 : follow m (m.length + 1) v' = .lit k := follow_mono m _ _ _ hk
+        have h1 : follow (hide t.formals (resolveChains m)) (fuelOf m) (.ref x) = .lit k := by
+          simp [fuelOf, follow, lookup_hide_of_not_mem _ _ _ hx, lookup_resolveChains, hv', hk1]
+        have h2 := place_eq m t args hm ha hl (.ref x) (fun y e => hb y (e ▸ hv))
+        rw [h1, h2]
+        simp only [follow_lit, substVal, lookup_zip_of_not_mem _ _ _ hx, Option.getD_none, fuelOf, follow, hv']
+        exact hk.symm
+
+/-- the three witnesses of the defects repaired by 1c2f179 / fe8e34c, on the algorithm as it was:
+    (1) `T { INTEGER : maxSize }`, `U ::= T { maxSize }`, `maxSize INTEGER ::= 64`: the argument refers to itself, the bound is lost;
+    (2) `Tpl { n, m }`, `Inst ::= Tpl { m, 3 }`, `m INTEGER ::= 7`: the first argument picks up the second one;
+    (3) `g INTEGER ::= m`, `T { m }` with body bound `g`, `U ::= T { 3 }`: the constant's reference is redirected to the parameter;
+    and a template linked in the full scope has the constant substituted for its parameter. -/
+theorem C09_old_scoping_counterexamples :
+    instantiateOld [("maxSize", .lit 64)] ⟨["maxSize"], [.ref "maxSize"]⟩ [.ref "maxSize"] = [.ref "maxSize"] ∧
+    expanded [("maxSize", .lit 64)] ⟨["maxSize"], [.ref "maxSize"]⟩ [.ref "maxSize"] = [.lit 64] ∧
+    instantiateOld [("m", .lit 7)] ⟨["n", "m"], [.ref "n", .ref "m"]⟩ [.ref "m", .lit 3] = [.lit 3, .lit 3] ∧
+    expanded [("m", .lit 7)] ⟨["n", "m"], [.ref "n", .ref "m"]⟩ [.ref "m", .lit 3] = [.lit 7, .lit 3] ∧
+    instantiateOld [("m", .lit 7), ("g", .ref "m")] ⟨["m"], [.ref "g", .ref "m"]⟩ [.lit 3] = [.lit 3, .lit 3] ∧
+    expanded [("m", .lit 7), ("g", .ref "m")] ⟨["m"], [.ref "g", .ref "m"]⟩ [.lit 3] = [.lit 7, .lit 3] ∧
+    (linkTemplateOld [("m", .lit 7)] ⟨["m"], [.ref "m"]⟩).body = [.lit 7] ∧
+    (linkTemplate [("m", .lit 7)] ⟨["m"], [.ref "m"]⟩).body = [.ref "m"] := by
+  decide
+
+/-- non-vacuity: the third witness meets every hypothesis of C09_value_parameters, and the repaired
+    algorithm gives the expanded bounds on it -/
+example : instantiate [("m", .lit 7), ("g", .ref "m")] ⟨["m"], [.ref "g", .ref "m"]⟩ [.lit 3] = [.lit 7, .lit 3] := by decide
+example : ClosedArgs [("m", .lit 7), ("g", .ref "m")] [.lit 3] := by
+  intro a ha; simp at ha; subst ha; exact ⟨3, by simp⟩
+
+end Params
 
 end Props.C09
